@@ -156,4 +156,10 @@ def setAccessTimeShape : List Bytes := [b!"name:=itemName(key.FsName())", b!"ite
     refresh, never headers of one and body of the other (the `View` of the interleaving and crash models) -/
 def getStorageMetadataShape : List Bytes := [b!"defer mets.FromContext(ctx).MarkTime(time.Now())", b!"xattrb,err:=xattr.FGet(f,attrName)", b!"if (err!=nil) {return {},err}", b!"sm,err:=decodeStorageMetadata(xattrb)", b!"if (err!=nil) {return {},err}", b!"fi,err:=f.Stat()", b!"sm.FdSize=fi.Size()", b!"return sm,nil"]
 
+/-- C12 C13: a hit whose bytes cannot be written to its client releases the key only on a FATAL (seek) error;
+    an ordinary client write error leaves the lock table alone — `cache.Finish` is not owner-checked, and the
+    entry under that name may by then be another request's revalidation (the interleaving model has no
+    "failed hit" actor because a failed hit does nothing to the shared state) -/
+def sendBodySites : List Bytes := [b!"fatal,err:=sendBody(*w,cr.Reader,cr.Metadata.Size,rRange,logctx)", b!"if (err!=nil) {if fatal {cache.Finish(key,logger)}}", b!"_,err:=sendBody(*w,cr.Reader,cr.Metadata.Size,rRange,logctx)", b!"if (err!=nil) {writeError(*w,err)}"]
+
 end Spec
